@@ -224,6 +224,8 @@ plan("C20", "exploration",
 # a Go map when it sends its contributions): a replay may need several attempts to take the same branch again.
 for _p in ("C12", "C13", "C14", "C16", "C17"):
     PLANS[_p]["replay_attempts"] = 12
+# C03's kill and power layers run real child processes: what a SIGKILL leaves behind can depend on timing.
+PLANS["C03"]["replay_attempts"] = 6
 
 PERM_RULE = ("a seeded run draws a permission table (1-4 clients x 1-4 ordered entries; wallet patterns: literal, .*, prefix.*, class, alternation in both orders, own anchors, other case, group, optional "
              "char; account patterns likewise or empty; 1-3 operation items from All/None/op/~op in drawn order and case) over a population with near-miss names (Wallet1, Wallet10, Wallet2, xWallet2, "
